@@ -14,5 +14,5 @@ tests=$(/venv/bin/python -m pytest -q -p no:cacheprovider 2>&1 | tail -1)
 /venv/bin/python _demo.py >/dev/null 2>&1; mut=$?
 echo "demo on base rc=$base, on mutant rc=$mut; tests: $tests"
 cd /verif
-SYMX_REPO=$wt python3-vt -m symx.check $prop --tier $tier --no-evidence 2>&1 | grep -E "level |VIOLATION|reproduced|ENGINE|NOT reproduce|paths=" | cut -c1-260
+SYMX_REPO=$wt python3-vt -m symx.check $prop --tier $tier --no-evidence ${BUDGET:+--budget $BUDGET} 2>&1 | grep -E "level |VIOLATION|reproduced|ENGINE|NOT reproduce|paths=" | cut -c1-260
 git -C /repo worktree remove --force $wt
